@@ -313,6 +313,7 @@ def facility_script(route, origin, rng):
                 if 'who' in cmd and cmd['who'] != 'main':
                     cmd['who'] = cmd['who'] + 'x' + tag
             cmds.extend(tail)
+            cmds.append({'c': 'destroy'})
     return cmds
 
 
@@ -395,6 +396,8 @@ def classify(evt, expected):
     """Which property does a disagreement at this event belong to?"""
     c = evt['cmd']['c']
     if c == 'construct':
+        return 'C09'
+    if c == 'destroy':
         return 'C09'
     if c in ('final', 'bind', 'unbind', 'register', 'unbind-comp', 'connect'):
         return 'C10'
